@@ -22,6 +22,10 @@ def templates(tier, seed):
     # elements that compare equal and hash alike (as 1, 1.0 and True do) but convert independently
     for keys in ([0, 0], [0, 1, 0], [0, 0, 0]) if tier == "quick" else ([0, 0], [0, 1, 0], [0, 0, 0], [0, 0, 1, 1], [1, 0, 0, 2]):
         ts.append(Template(f"STUB/equal_elements/{''.join(map(str, keys))}", tmpl.pick(tmpl.coerce_stub_case, LABELS), (len(keys), "series", keys)))
+    # a dtype whose conversion is written in pandera itself: Category (values outside the categories must not silently become nulls)
+    for N in ((1, 2) if tier == "quick" else (1, 2, 3)):
+        for level in ("try_coerce", "column"):
+            ts.append(Template(f"CAT/{level}/N={N}", tmpl.pick(tmpl.coerce_category_case, LABELS), (N, level)))
     for N in ((2,) if tier == "quick" else (1, 2, 3)):
         for direction in ("i2f", "f2i"):
             for level in ("column", "schema", "series", "component"):
